@@ -88,7 +88,20 @@ func init() {
 				k("shell", "any", n)
 			}
 			k("shell", "binary", 8)
+			kr := func(kernel, mode string, n, a, b int) {
+				jobs = append(jobs, Job{Harness: "VX_C03_kernel", Params: P("kernel", kernel, "mode", mode, "n", itoa(n), "a", itoa(a), "b", itoa(b)), MaxPaths: 400000})
+			}
+			kr("heap_range", "any", 5, 1, 5)
+			kr("heap_range", "any", 5, 2, 5)
+			kr("heap_range", "any", 6, 1, 5)
+			kr("insertion_range", "any", 5, 1, 5)
+			kr("insertion_range", "any", 6, 2, 5)
 			if tier == "thorough" {
+				kr("quick0_range", "binary", 15, 1, 14)
+				kr("heap_range", "any", 7, 2, 7)
+				kr("heap_range", "distinct", 8, 3, 8)
+				kr("pivot_range", "binary", 16, 2, 15)
+
 				k("shell", "binary", 12)
 				k("pivot", "binary", 13)
 				k("sort", "binary", 13)
@@ -150,13 +163,20 @@ func c04jobs(harness string, tier string) []Job {
 			}
 		}
 	}
+	// the hash table across a growth step (5 distinct keys fill the 8-slot table beyond load factor 0.5)
+	jobs = append(jobs, Job{Harness: "VX_C04_table", Params: P("n", "7", "conc", "5", "hash", "ident"), MaxPaths: 300000})
+	if tier == "thorough" {
+		jobs = append(jobs, Job{Harness: "VX_C04_table", Params: P("n", "6", "conc", "5", "hash", "uf"), MaxPaths: 1000000})
+		jobs = append(jobs, Job{Harness: "VX_C04_table", Params: P("n", "8", "conc", "5", "hash", "ident"), MaxPaths: 1000000})
+		jobs = append(jobs, Job{Harness: "VX_C04_table", Params: P("n", "11", "conc", "9", "hash", "ident"), MaxPaths: 1000000})
+	}
 	if harness == "VX_C04_groupby" {
 		an := "3"
 		if tier == "thorough" {
 			an = "4"
 		}
-		jobs = append(jobs, Job{Harness: harness, Params: P("types", "bool", "n", an, "null", "false", "ix", ixm, "agg", "all", "cols", "given", "slots", "0", "kconc", "1"), MaxPaths: 200000})
-		jobs = append(jobs, Job{Harness: harness, Params: P("types", "", "n", "2", "null", "false", "ix", ixm, "agg", "all", "cols", "given", "slots", "017")})
+		jobs = append(jobs, Job{Harness: harness, Params: P("types", "bool", "n", an, "null", "false", "ix", "any", "agg", "all", "cols", "given", "slots", "0", "kconc", "1"), MaxPaths: 200000})
+		jobs = append(jobs, Job{Harness: harness, Params: P("types", "", "n", "3", "null", "false", "ix", "any", "agg", "all", "cols", "given", "slots", "017")})
 	}
 	return jobs
 }
@@ -169,19 +189,19 @@ func init() {
 		"user aggregation functions are uninterpreted",
 	}
 	register(&Property{
-		ID: "C04", Dirs: []string{"root"},
+		ID: "C04", Dirs: []string{"root", "internal/grouper"},
 		Jobs:   func(tier string) []Job { return c04jobs("VX_C04_groupby", tier) },
 		Bounds: func(tier string) string {
 			if tier == "thorough" {
 				return "n=4 rows (int key) / n=3 (other key types) of P=n+1 physical rows in every arrangement, 1-2 key columns of all five types, both Null settings, 8 aggregations; hash table of 8 slots (no growth step reached end-to-end)"
 			}
-			return "n=3 rows of P=4 physical rows (fixed non-identity arrangement), 1-2 key columns of all five types, both Null settings, 8 aggregations (on a concrete bool key pattern and without key; cell values symbolic); hash table of 8 slots"
+			return "n=3 rows of P=4 physical rows (fixed non-identity arrangement), 1-2 key columns of all five types, both Null settings, 8 aggregations (on a concrete bool key pattern and without key; cell values symbolic); hash table of 8 slots; plus the table itself across its first growth step (7 rows, 5-6 distinct abstract keys, hash = key; thorough: also an uninterpreted hash with start slots {0,1,8,15})"
 		},
 		Assume: assume, Outside: []string{"more than 2 key columns", "tables larger than 8 slots / growth steps (grouping more than 4 distinct keys)", "GroupStats values"},
 		MinReach: []string{"end"}, TVVectors: 2, Solver: "z3-new -in",
 	})
 	register(&Property{
-		ID: "C05", Dirs: []string{"root"},
+		ID: "C05", Dirs: []string{"root", "internal/grouper"},
 		Jobs:   func(tier string) []Job { return c04jobs("VX_C05_distinct", tier) },
 		Bounds: func(tier string) string {
 			if tier == "thorough" {
@@ -230,6 +250,18 @@ func init() {
 				jobs = append(jobs, Job{Harness: "VX_C06_apply", Params: P("steps", s, "mode", "filtered", "n", itoa(n), "P", itoa(pp))})
 			}
 			jobs = append(jobs, Job{Harness: "VX_C06_apply", Params: P("steps", "", "mode", "rownums", "n", itoa(n), "P", itoa(pp))})
+			// full-length permuted index (n == P): no row removed, order changed
+			for _, s := range []string{"fn0_counter:z", "fn0_uf:z", "const_int:z", "const_string:z", "fn1:z:a::int>int", "fn1:a:a::int>float", "fn2:z:a:b:int", "fn1:z:s::string>string", "copy:z:b", "upper:z:s", "fn1:z:e::string>int"} {
+				jobs = append(jobs, Job{Harness: "VX_C06_apply", Params: P("steps", s, "mode", "apply", "n", "3", "P", "3")})
+			}
+			jobs = append(jobs, Job{Harness: "VX_C06_apply", Params: P("steps", "", "mode", "rownums", "n", "3", "P", "3")})
+			jobs = append(jobs, Job{Harness: "VX_C06_apply", Params: P("steps", "fn1:z:a::int>int", "mode", "filtered", "n", "3", "P", "3")})
+			// frames that are projections of wider frames (column positions moved)
+			for _, pre := range []string{"drop_first", "select_rev", "drop_mid"} {
+				for _, s := range []string{"fn1:b:b::int>int", "fn2:c:c:c:bool", "const_int:b", "copy:s:e", "fn1:z:b::int>float", "fn1:e:e::string>int;fn1:b:b::int>int", "upper:s:s"} {
+					jobs = append(jobs, Job{Harness: "VX_C06_apply", Params: P("steps", s, "mode", "apply", "n", itoa(n), "P", itoa(pp), "pre", pre)})
+				}
+			}
 			return jobs
 		},
 		Bounds: func(tier string) string {
@@ -314,6 +346,12 @@ func init() {
 					jobs = append(jobs, Job{Harness: "VX_C07_eval", Params: P("expr", e, "dst", "z", "n", "2", "P", "3", "tempcol", tc)})
 				}
 			}
+			for _, e := range []string{"( abs @a )", "( u1 @a )", "( - @a b )", "( u2 @a @b )", "( u2 #i @a )", "( u1 ( - @a #i ) )", "( - ( abs @a ) @b )", "@a"} {
+				for _, dst := range []string{"z", "a"} {
+					jobs = append(jobs, Job{Harness: "VX_C07_eval", Params: P("expr", e, "dst", dst, "n", "2", "P", "3")})
+				}
+			}
+			jobs = append(jobs, Job{Harness: "VX_C07_ctx"})
 			for _, c := range []string{"unknown_fn", "unknown_fn1", "unknown_col", "unknown_col_const", "type_mismatch", "type_mismatch_const", "no_args", "malformed_list", "malformed_op", "not_a_list", "nested_error", "nested_error_lhs"} {
 				jobs = append(jobs, Job{Harness: "VX_C07_errors", Params: P("case", c)})
 			}
@@ -339,7 +377,7 @@ func init() {
 			if tier == "thorough" {
 				n, pp = 3, 4
 			}
-			jobs := []Job{{Harness: "VX_C09_observe", Params: P("n", itoa(n), "P", itoa(pp))}}
+			jobs := []Job{{Harness: "VX_C09_observe", Params: P("n", itoa(n), "P", itoa(pp))}, {Harness: "VX_C09_observe", Params: P("n", "3", "P", "3", "ix", "swap01")}, {Harness: "VX_C09_observe", Params: P("n", "2", "P", "3", "pre", "select_copy")}}
 			for _, sk := range []string{"ifb", "se", "i"} {
 				p2 := pp
 				if sk == "se" && tier != "thorough" {
@@ -372,7 +410,7 @@ func init() {
 }
 
 func init() {
-	c10cases := []string{"filter_unknown_col", "filter_unknown_cmp_int", "filter_unknown_cmp_float", "filter_unknown_cmp_bool", "filter_unknown_cmp_string", "filter_unknown_cmp_enum", "filter_cmp_not_string", "filter_fn_wrong_type_int", "filter_fn_wrong_type_string", "filter_fn_wrong_type_enum", "filter_arg_wrong_type_int", "filter_arg_wrong_type_float", "filter_arg_int_for_float", "filter_arg_nan", "filter_arg_wrong_type_bool", "filter_arg_wrong_type_string", "filter_arg_wrong_type_enum", "filter_arg_struct", "filter_arg_nil_cmp_lt", "filter_arg_mixed_list", "filter_arg_list_for_lt", "filter_unknown_arg_col", "filter_arg_col_type_mismatch", "filter_arg_col_type_mismatch2", "filter_fn2_without_col", "filter_enum_unknown_value", "filter_bad_regex", "filter_bad_regex_enum", "and_empty", "or_empty", "not_invalid", "nested_invalid", "inverse_invalid", "sort_unknown", "select_unknown", "slice_bad", "copy_unknown", "copy_badname", "apply_unknown_src", "apply_unknown_src2", "apply_fn_wrong_type", "apply_fn_wrong_type_string", "apply_fn_wrong_type_enum", "apply_fn0_invalid", "apply_fn0_func_wrong", "apply_fn2_mismatched_cols", "apply_fn2_wrong_fn", "apply_fn2_mismatched_string_enum", "apply_unknown_builtin", "apply_unknown_builtin_int", "apply_unknown_builtin2", "apply_bad_dst", "apply_empty_dst", "apply_copy_unknown", "filteredapply_invalid_clause", "filteredapply_invalid_instr", "eval_unknown_fn", "eval_bad_dst", "distinct_unknown", "rownums_bad_name", "groupby_unknown", "aggregate_unknown_col", "aggregate_unknown_fn", "aggregate_fn_wrong_type", "aggregate_fn_wrong_type_string", "aggregate_fn_wrong_type_enum", "aggregate_on_group_col", "aggregate_duplicate", "aggregate_string_builtin"}
+	c10cases := []string{"filter_unknown_col", "filter_unknown_cmp_int", "filter_unknown_cmp_float", "filter_unknown_cmp_bool", "filter_unknown_cmp_string", "filter_unknown_cmp_enum", "filter_cmp_not_string", "filter_fn_wrong_type_int", "filter_fn_wrong_type_string", "filter_fn_wrong_type_enum", "filter_arg_wrong_type_int", "filter_arg_wrong_type_float", "filter_arg_int_for_float", "filter_arg_nan", "filter_arg_wrong_type_bool", "filter_arg_wrong_type_string", "filter_arg_wrong_type_enum", "filter_arg_struct", "filter_arg_nil_cmp_lt", "filter_arg_mixed_list", "filter_arg_list_for_lt", "filter_unknown_arg_col", "filter_arg_col_type_mismatch", "filter_arg_col_type_mismatch2", "filter_fn2_without_col", "filter_enum_unknown_value", "filter_bad_regex", "filter_bad_regex_enum", "and_empty", "or_empty", "not_invalid", "nested_invalid", "inverse_invalid", "sort_unknown", "select_unknown", "slice_bad", "copy_unknown", "copy_self_unknown", "apply_copy_self_unknown", "eval_val_unknown_self", "or_all_rows_then_invalid", "or_complement_then_invalid", "and_none_then_invalid", "empty_frame_invalid_filter", "empty_frame_invalid_apply", "empty_frame_invalid_sort", "copy_badname", "apply_unknown_src", "apply_unknown_src2", "apply_fn_wrong_type", "apply_fn_wrong_type_string", "apply_fn_wrong_type_enum", "apply_fn0_invalid", "apply_fn0_func_wrong", "apply_fn2_mismatched_cols", "apply_fn2_wrong_fn", "apply_fn2_mismatched_string_enum", "apply_unknown_builtin", "apply_unknown_builtin_int", "apply_unknown_builtin2", "apply_bad_dst", "apply_empty_dst", "apply_copy_unknown", "filteredapply_invalid_clause", "filteredapply_invalid_instr", "eval_unknown_fn", "eval_bad_dst", "distinct_unknown", "rownums_bad_name", "groupby_unknown", "aggregate_unknown_col", "aggregate_unknown_fn", "aggregate_fn_wrong_type", "aggregate_fn_wrong_type_string", "aggregate_fn_wrong_type_enum", "aggregate_on_group_col", "aggregate_duplicate", "aggregate_string_builtin"}
 	register(&Property{
 		ID: "C10", Dirs: []string{"root"},
 		Jobs: func(tier string) []Job {
@@ -391,7 +429,7 @@ func init() {
 			return jobs
 		},
 		Bounds: func(tier string) string {
-			return "69 misuse cases (one invalid argument per call: unknown columns, comparators, function/argument types outside the documented unions, illegal names, bad slice bounds over all ints, empty And/Or, malformed expressions, mismatched column types, invalid aggregations) on a derived frame with one column per type and symbolic cells; sticky-error chains of every chainable operation after 6 (thorough: every) first error"
+			return "78 misuse cases (one invalid argument per call: unknown columns, comparators, function/argument types outside the documented unions, illegal names, bad slice bounds over all ints, empty And/Or, malformed expressions, mismatched column types, invalid aggregations) on a derived frame with one column per type and symbolic cells; sticky-error chains of every chainable operation after 6 (thorough: every) first error"
 		},
 		Assume:   []string{"documented panics (Must*View, ItemAt out of range, DivI by zero) are excluded", "a panic on any feasible path is a violation (engine-level obligation)"},
 		Outside:  []string{"two simultaneous misuses in one call", "ReadCSV/ReadJSON/ReadSQL argument misuse (C12, C15)"},
@@ -400,7 +438,9 @@ func init() {
 }
 
 var c01ops = []string{"filter", "filter_or", "filter_notand", "filter_inv", "sort", "sort2", "slice", "slice_tail", "select", "drop", "copy", "copy_over",
-	"apply_fn1", "apply_fn2", "apply_const", "apply_upper", "filtered_apply", "eval", "rownums", "distinct", "aggregate", "qframes", "views", "tocsv", "tojson", "string", "equals"}
+	"apply_fn1", "apply_fn2", "apply_const", "apply_upper", "filtered_apply", "eval", "rownums", "distinct", "aggregate", "qframes",
+	"copy_y", "rownums_new", "eval_new", "apply_new", "aggregate_nokey", "qframes_aggregate",
+	"grouper_aggregate", "filter_ilike", "filter_like_regex", "eval_ctx", "tosql", "views", "tocsv", "tojson", "string", "equals"}
 
 func c01jobs(tier string, strict bool) []Job {
 	var jobs []Job
@@ -420,7 +460,8 @@ func c01jobs(tier string, strict bool) []Job {
 	if strict {
 		jobs = append(jobs, Job{Harness: "VX_C01_persist", Params: P("ops", "x_append_spare", "n", itoa(n), "P", itoa(pp), "strict", st), ExpectSat: true})
 	}
-	pairs := []string{"slice,sort", "slice,filter_or", "sort,slice", "filter,apply_fn1", "slice,filter_notand", "sort,sort2", "copy,apply_fn2", "select,copy", "filter,distinct", "slice,qframes", "apply_fn1,eval", "slice_tail,filter", "filter,filter_inv", "slice,aggregate", "sort,filtered_apply", "rownums,sort"}
+	pairs := []string{"slice,sort", "slice,filter_or", "sort,slice", "filter,apply_fn1", "slice,filter_notand", "sort,sort2", "copy,apply_fn2", "select,copy", "filter,distinct", "slice,qframes", "apply_fn1,eval", "slice_tail,filter", "filter,filter_inv", "slice,aggregate", "sort,filtered_apply", "rownums,sort",
+		"copy,copy_y", "copy,rownums_new", "apply_new,eval_new", "eval_new,copy", "rownums_new,apply_new", "copy,copy_y,apply_new", "sort,aggregate_nokey", "slice,aggregate_nokey", "sort,qframes_aggregate", "filter_ilike,filter_ilike", "filter_like_regex,filter_like_regex", "grouper_aggregate,grouper_aggregate", "tosql,tosql"}
 	if tier == "thorough" {
 		for _, a := range []string{"slice", "sort", "filter", "slice_tail", "copy", "apply_fn1"} {
 			for _, b := range c01ops {
@@ -442,9 +483,9 @@ func init() {
 		Jobs:   func(tier string) []Job { return c01jobs(tier, false) },
 		Bounds: func(tier string) string {
 			if tier == "thorough" {
-				return "family {base (P=5 rows, shared column storage via Copy), f0 = permuted+sliced frame with spare index capacity (n=4), results}; numeric cells symbolic, string/enum cells concrete; every one of 27 operations as single step; 6x27 two-step histories applied both to the newest member and to the shared ancestor; 5 three-step histories; every member re-observed (Len, names, types, Err, every cell through the typed views) after every step"
+				return "family {base (P=5 rows, shared column storage via Copy), f0 = permuted+sliced frame with spare index capacity (n=4), results}; numeric cells symbolic, string/enum cells concrete; every one of 38 operations as single step; 6x27 two-step histories applied both to the newest member and to the shared ancestor; 5 three-step histories; every member re-observed (Len, names, types, Err, every cell through the typed views) after every step"
 			}
-			return "family {base (P=4 rows, shared column storage via Copy), f0 = permuted+sliced frame with spare index capacity (n=3), results}; numeric cells symbolic, string/enum cells concrete; every one of 27 operations as single step; 16 two-step histories applied both to the newest member and to the shared ancestor; every member re-observed after every step"
+			return "family {base (P=4 rows, shared column storage via Copy), f0 = permuted+sliced frame with spare index capacity (n=3), results}; numeric cells symbolic, string/enum cells concrete; every one of 38 operations as single step; 16 two-step histories applied both to the newest member and to the shared ancestor; every member re-observed after every step"
 		},
 		Assume:   []string{"frames are built through New/Copy/withIndex/Slice so that column storage and index storage are shared", "user functions uninterpreted; hash uninterpreted"},
 		Outside:  []string{"histories longer than 3; more than 3 physical rows", "Append, Rolling"},
@@ -454,7 +495,7 @@ func init() {
 		ID: "C11", Dirs: []string{"root"}, Level: "other",
 		Jobs:   func(tier string) []Job { return c01jobs(tier, true) },
 		Bounds: func(tier string) string {
-			return "same operation set and frame families as C01; obligation per step: the engine's write monitor saw no store (Store, copy, in-place append, map update) into any memory cell reachable from any family member (including spare capacity behind slices) and no store to a package-level variable"
+			return "same operation set and frame families as C01; obligation per step: the engine's write monitor saw no store (Store, copy, in-place append, map update) into any memory cell reachable from any family member (incl. a Grouper obtained earlier and spare capacity behind slices) or from any package-level variable of tobgu/qframe, and no sync.Map/sync.Once mutation (process-wide state)"
 		},
 		Assume: []string{
 			"REDUCED FORM: interleavings are not encoded (no Go memory-model encoder available). Decided instead: every operation writes only to memory it allocated itself during the call. By the Go memory model, operations that only read shared locations cannot race, so this sequential condition implies race freedom for any multiset of these operations under every schedule; determinism of each operation gives 'same result as alone'",
@@ -467,7 +508,7 @@ func init() {
 
 func init() {
 	register(&Property{
-		ID: "C12", Dirs: []string{"internal/fastcsv"},
+		ID: "C12", Dirs: []string{"internal/fastcsv", "root"},
 		Jobs: func(tier string) []Job {
 			var jobs []Job
 			maxL := 4
@@ -491,16 +532,23 @@ func init() {
 				jobs = append(jobs, Job{Harness: "VX_C12_scan", Params: P("L", "5", "cap", "1024", "sched", "whole"), MaxPaths: 2000000})
 				jobs = append(jobs, Job{Harness: "VX_C12_scan", Params: P("L", "3", "cap", "2", "sched", "any"), MaxPaths: 2000000})
 			}
+			for _, en := range []string{"false", "true"} {
+				jobs = append(jobs, Job{Harness: "VX_C12_infer", Params: P("rows", "1", "emptynull", en), MaxPaths: 500000})
+				jobs = append(jobs, Job{Harness: "VX_C12_infer", Params: P("rows", "2", "emptynull", en), MaxPaths: 500000})
+			}
+			for _, c := range []string{"headers", "ignore_empty", "empty_kept_single_col", "rename_dup", "missing_alias", "delimiter", "enum_declared", "typed_failure", "column_count", "rowcount_hint"} {
+				jobs = append(jobs, Job{Harness: "VX_C12_options", Params: P("case", c), MaxSteps: 80000000})
+			}
 			return jobs
 		},
 		Bounds: func(tier string) string {
 			if tier == "thorough" {
-				return "scanner: every well-formed document of length <=6 over the class alphabet {delimiter, quote, LF, CR, a, b}, initial buffer capacity 1 and 1024 (2 and 3 up to length 5), every sequence of read sizes and both EOF styles; length 7 with whole-buffer reads"
+				return "scanner: every well-formed document of length <=6 over the class alphabet {delimiter, quote, LF, CR, a, b}, initial buffer capacity 1 and 1024 (2 and 3 up to length 5), every sequence of read sizes and both EOF styles; length 7 with whole-buffer reads; ReadCSV layer as in the quick tier"
 			}
-			return "scanner: every well-formed document of length <=4 over the class alphabet {delimiter, quote, LF, CR, a, b}, initial buffer capacity 1 and 1024 (2 at length 3), every sequence of read sizes and both EOF styles; length 5 with whole-buffer reads"
+			return "scanner: every well-formed document of length <=4 over the class alphabet {delimiter, quote, LF, CR, a, b}, initial buffer capacity 1 and 1024 (2 at length 3), every sequence of read sizes and both EOF styles; length 5 with whole-buffer reads; ReadCSV layer: type inference on 2 columns x 1-2 rows with cells over {empty,1,7,t,x,.} and both EmptyNull settings, and 10 option layouts (Headers, IgnoreEmptyLines, single-column empty lines, RenameDuplicateColumns, MissingColumnNameAlias, Delimiter, Types/EnumValues, typed failure, column count mismatch, RowCountHint across the 1000-row resize) with symbolic cells"
 		},
 		Assume:   []string{"well-formed = accepted by the harness's RFC 4180 recogniser; CR only as part of a CRLF record end (CR inside quoted fields excluded)", "(0,nil) reads excluded (discouraged by io.Reader)", "the reader is constructed directly (as NewReader does) so that tiny buffer capacities exercise reallocation and compaction"},
-		Outside:  []string{"documents longer than the bound; fields crossing the real 1 KiB buffer (exercised instead through capacity 1..3)", "the ReadCSV layer above the scanner (type inference, headers, options): see evidence notes"},
+		Outside:  []string{"documents longer than the bound; fields crossing the real 1 KiB buffer (exercised instead through capacity 1..3)", "ReadCSV options and inference beyond the layouts listed in bounds"},
 		MinReach: []string{"end"}, TVVectors: 3,
 	})
 }
@@ -543,6 +591,11 @@ func init() {
 				}
 				for _, pat := range []string{"a.c", "%a.c", "a.c%", "%a.c%", "a(b", "%(", "[a-c]+", ".*", "%.%", "^a$", "a|b", "%a\\", "(?i)a.", "a{2}"} {
 					jobs = append(jobs, Job{Harness: "VX_C18_regex", Params: P("cs", cs, "pattern", pat, "nc", "2")})
+				}
+			}
+			for _, pat := range []string{"a.c", "A[bx]"} {
+				for _, first := range []string{"true", "false"} {
+					jobs = append(jobs, Job{Harness: "VX_C18_regex_seq", Params: P("pattern", pat, "first", first)})
 				}
 			}
 			for _, cmp := range []string{"like", "ilike"} {
@@ -637,6 +690,11 @@ func init() {
 				add("enum,float", 2, 1, "true", en, "false")
 				add("float,bool", 2, 1, "true", en, "true")
 				add("int", 2, 1, "false", en, "false")
+				jobs = append(jobs, Job{Harness: "VX_C13_roundtrip", Params: P("types", "int,string", "n", "3", "strlen", "1", "header", "true", "emptynull", en, "reorder", "false", "ix", "full"), MaxPaths: 300000})
+				jobs = append(jobs, Job{Harness: "VX_C13_roundtrip", Params: P("types", "float", "n", "2", "strlen", "1", "header", "true", "emptynull", en, "reorder", "false", "ix", "full"), MaxPaths: 300000})
+				if en == "false" {
+					jobs = append(jobs, Job{Harness: "VX_C13_specials"})
+				}
 				if tier == "thorough" {
 					add("string,string", 1, 2, "true", en, "false")
 					add("string", 2, 2, "true", en, "false")
@@ -675,6 +733,7 @@ func init() {
 			jobs = append(jobs, Job{Harness: "VX_C14_tojson", Params: P("shape", "string", "namelen", "0", "n", "2", "strlen", "1"), MaxPaths: 300000})
 			jobs = append(jobs, Job{Harness: "VX_C14_tojson", Params: P("shape", "mixed", "namelen", "0", "n", "2", "strlen", "1"), MaxPaths: 300000})
 			jobs = append(jobs, Job{Harness: "VX_C14_tojson", Params: P("shape", "empty", "namelen", "0", "n", "0", "strlen", "1")})
+			jobs = append(jobs, Job{Harness: "VX_C14_tojson", Params: P("shape", "concrete", "namelen", "0", "n", "1", "strlen", "1"), MaxSteps: 50000000})
 			return jobs
 		},
 		Bounds: func(tier string) string {
@@ -751,12 +810,14 @@ func init() {
 			for _, ts := range []string{"int,string", "float,bool", "enum,int", "string,enum,float"} {
 				jobs = append(jobs, Job{Harness: "VX_C19_roundtrip", Params: P("types", ts, "n", n)})
 			}
+			jobs = append(jobs, Job{Harness: "VX_C19_sequence", Params: P("d1", "sqlite", "d2", "postgres")}, Job{Harness: "VX_C19_sequence", Params: P("d1", "incr", "d2", "plain")}, Job{Harness: "VX_C19_sequence", Params: P("d1", "mysql", "d2", "sqlite")})
+			jobs = append(jobs, Job{Harness: "VX_C19_precision"})
 			return jobs
 		},
 		Bounds: func(tier string) string {
 			return "frames of 2 (thorough 3) rows derived from a larger physical frame, 1-3 columns over the five types with symbolic cells; dialects postgres/sqlite/mysql/plain/incrementing, a table name containing the escape character; result sets of the driver types int64, float64, bool, string, []byte, NULL (NULLs in text/float columns, including leading NULLs); write-then-read round trips"
 		},
-		Assume:   []string{"database/sql is a contract model in the engine (Tx.Prepare/Exec, Stmt.Query/Close, Rows.Next/Columns/Scan/Err): Scan passes each driver value to the destination's Scan method; Exec arguments are normalised like database/sql's default converter; natively a scripted in-memory driver behind the real database/sql is used for replay", "Precision and the coercion options are not exercised"},
+		Assume:   []string{"database/sql is a contract model in the engine (Tx.Prepare/Exec, Stmt.Query/Close, Rows.Next/Columns/Scan/Err): Scan passes each driver value to the destination's Scan method; Exec arguments are normalised like database/sql's default converter; natively a scripted in-memory driver behind the real database/sql is used for replay", "Precision is exercised on concrete values only; the coercion options are not exercised"},
 		Outside:  []string{"real drivers' type mapping", "Coerce and Precision options", "identifier escaping rules beyond wrapping in the escape character (the code does not double embedded escape characters; the statement does not require it)"},
 		MinReach: []string{"end"}, TVVectors: 2,
 	})
